@@ -108,6 +108,11 @@ def judge(log, leftovers, rc, what, fault, sh, case):
     except testrun.ParseError as e:
         sh.violation("unparsable-command", "%s: %s" % (what, e), case)
         return False
+    for e in log:
+        if e.get("endpoint_env") != testrun.ENDPOINT_ENV:
+            sh.violation("other-daemon:%s" % e["kind"], "%s: command #%d (%s) addresses another docker endpoint than the test process (%r instead of %r): what it creates or removes is "
+                         "created or removed elsewhere" % (what, e["seq"], e["kind"], e.get("endpoint_env"), testrun.ENDPOINT_ENV), case)
+            return False
     images, containers, volumes = {}, {}, set()
     for c in cmds:
         if c["kind"] == "pack build":
@@ -179,6 +184,10 @@ def judge(log, leftovers, rc, what, fault, sh, case):
         if c["kind"] == "docker volume remove" and any(n not in volumes for n in c["names"]):
             sh.violation("foreign-volume-removed", "%s: docker volume remove %r, volumes of this run: %r" % (what, c["names"], sorted(volumes)), case)
             return False
+    # (identifiers are random: over the thousands of runs of one check no name may come up twice - see run())
+    for n in set(images) | set(containers):
+        sh.add("names_seen", n)
+    sh.count("names_allocated", len(set(images) | set(containers)))
     if leftovers:
         sh.violation("tempdir-leaked:%s" % fault["kind"], "%s: temporary directories left behind in TMPDIR: %r" % (what, leftovers), case)
         return False
@@ -353,6 +362,12 @@ def run(tier, seed, work):
     for d in vp.pmap(shard_run, [(s, work) for s in vp.split(ts, vp.NCPU * 2)]):
         res.merge(d)
     res.extra["scenario_trees"] = len(ts)
+    # the runner tells its resources apart by random names: two builds (of one test, of two tests running side by side) that draw the same
+    # name remove each other's image and volumes. 12 random letters never repeat within a run of this check (p < 1e-9).
+    seen, allocated = res.extra.get("_sets", {}).get("names_seen", set()), res.extra.get("names_allocated", 0)
+    if allocated >= 50 and len(seen) < allocated:
+        res.violation("identifier-reuse", "%d image / container names were allocated in %d scenario executions, only %d of them distinct (for example %r): resources of different builds cannot be told apart"
+                      % (allocated, res.evaluations, len(seen), sorted(seen)[:3]), {"note": "statistics over the whole run: re-run the check"})
     if platform.machine() == "x86_64":
         res.required = ["trees_with_locally_packaged_buildpacks", "rebuilds_with_locally_packaged_buildpacks", "faults_injected"]
     res.rule = ("evaluations = scenario executions (baseline + one per fault). distinct_nontrivial = distinct (tree shape, expected pack result, preprocessor used, fault position class "
@@ -367,6 +382,9 @@ def run(tier, seed, work):
 def replay(case, work):
     res = vp.Result("C16", "quick", 0, "fault_enumeration")
     sh = vp.Shard()
+    if "scenario" not in case:
+        res.inconclusive.append("this witness is a statistic over a whole run (%s): re-run ./check C16 at the recorded seed" % case.get("note"))
+        return res
     env = testrun.Env(os.path.join(work, "replay"), as_nobody=bool(case.get("as_nobody")) and vp.nobody_works())
     env.create(FIXTURE)
     if env.as_nobody:
